@@ -11,16 +11,19 @@ def sims(ctx):
             dict(name="honest4", stakes=[2, 2, 2, 1], seed=ctx.seed, run_ms=7000),
             dict(name="byzspam4", stakes=[2, 2, 2, 1], byz=[3], byz_mode="spam", seed=ctx.seed + 1,
                  gst=4000, chaos=1500, drop=100, dup=50, run_ms=9000),
+            # equivocating leader: two blocks per slot shown to different halves, plus vote equivocation
+            dict(name="equiv4", stakes=[2, 2, 2, 1], byz=[3], byz_mode="equivocate", seed=ctx.seed + 3,
+                 gst=1000, chaos=600, drop=20, dup=20, run_ms=9000),
             dict(name="crash6", stakes=[1, 1, 1, 1, 1, 1], byz=[5], byz_mode="spam", crashed=[2],
                  crash_at=2500, seed=ctx.seed + 2, gst=3000, chaos=1200, drop=50, run_ms=8000),
         ]
     out = []
     for i in range(10):
-        out.append(dict(name=f"byz4_{i}", stakes=[2, 2, 2, 1], byz=[3], byz_mode="spam",
+        out.append(dict(name=f"byz4_{i}", stakes=[2, 2, 2, 1], byz=[3], byz_mode=("equivocate" if i % 2 else "spam"),
                         seed=ctx.seed + 10 + i, gst=5000 + 500 * i, chaos=1000 + 300 * i, drop=40 * i,
                         dup=30, run_ms=12000))
     for i in range(8):
-        out.append(dict(name=f"six_{i}", stakes=[1, 1, 1, 1, 1, 1], byz=[(i % 6)], byz_mode="spam",
+        out.append(dict(name=f"six_{i}", stakes=[1, 1, 1, 1, 1, 1], byz=[(i % 6)], byz_mode=("equivocate" if i % 2 == 0 else "spam"),
                         crashed=[(i + 3) % 6], crash_at=1000 * i, seed=ctx.seed + 40 + i, gst=4000,
                         chaos=2000, drop=100, dup=50, run_ms=11000))
     for i in range(4):
